@@ -123,6 +123,81 @@ def r6_4(ctx, rc):
         raise AnalysisError('only %d version arguments found' % n)
 
 
+def r6_7(ctx, rc):
+    """Each version getter reads its own table: ``get_operation_version``
+    the field that a new cache fills from the software's table
+    (``_OPERATION_VERSIONS``), ``get_func_version`` the field filled from
+    the caller's ``versions``; the two fields differ.  (A getter reading the
+    sibling field compares None with None for ever.)"""
+    from .c11 import _param_field
+    prog = ctx.prog
+    C = ctx.R.cache
+    init = prog.funcs.get(C + '.__init__')
+    if init is None:
+        raise AnalysisError('constructor of the cache not found')
+
+    def field_of(getter):
+        G = ctx.E.func(C + '.' + getter)
+        at = {n.attr for r in ast.walk(G.node) if isinstance(r, ast.Return)
+              and r.value is not None for n in ast.walk(r.value)
+              if isinstance(n, ast.Attribute) and isinstance(
+                  n.value, ast.Name) and n.value.id == G.self_name}
+        return G, at
+    Gf, ff = field_of('get_func_version')
+    Go, fo = field_of('get_operation_version')
+    key = 'the two version getters read different fields'
+    if len(ff) != 1 or len(fo) != 1 or ff == fo:
+        rc.violation(
+            'version-getter-field | ' + Go.qualname,
+            'get_func_version reads %s and get_operation_version reads %s: '
+            'each must read exactly one field of its own' % (
+                sorted(ff), sorted(fo)), Go.file, key=key)
+        return
+    rc.ok({'func': sorted(ff), 'operation': sorted(fo)}, key=key)
+    pf = {p: _param_field(ctx, C, p) for p in init.params}
+    p_op = [p for p, f in pf.items() if f in fo]
+    p_fn = [p for p, f in pf.items() if f in ff]
+    # the factory of empty (new) caches
+    n = 0
+    for F in prog.funcs.values():
+        if F.cls != C or F.name == '__init__':
+            continue
+        for call in prog.calls_in(F):
+            for g in prog.resolve_call(call, F):
+                if not (isinstance(g, Func) and g.is_ctor_call and
+                        g.cls_for_ctor == C):
+                    continue
+                b = prog.bind_args(call, g)
+                for plist, what in ((p_op, 'operation'), (p_fn, 'func')):
+                    for p in plist:
+                        a = b.get(p)
+                        if a is None or isinstance(a, list):
+                            continue
+                        cn = ctx.H.node_of(F, call)[0]
+                        a = ctx.H.subst(a, F, cn)
+                        txt = ast.unparse(a)
+                        soft = '_OPERATION_VERSIONS' in txt
+                        read = 'operationVersions' in txt
+                        readf = 'funcVersions' in txt
+                        n += 1
+                        key = '%s versions of a cache built in %s' % (
+                            what, F.qualname)
+                        if what == 'operation' and not (soft or read) or \
+                                what == 'func' and (soft or read):
+                            rc.violation(
+                                'version-table | %s | %s' % (F.qualname,
+                                                             what),
+                                '%s fills the field read by get_%s_version '
+                                'from %s' % (F.qualname, what, txt[:60]),
+                                prog.loc(F, call), key=key)
+                        else:
+                            rc.ok({'factory': F.qualname, 'table': what,
+                                   'from': txt[:40]}, key=key)
+    if n < 4:
+        raise AnalysisError('version arguments of the cache factories not '
+                            'found (%d)' % n)
+
+
 def r6_6(ctx, rc):
     """Versions are compared with JSON equality: its structural rules
     (R18.3 bool discrimination, R18.5 lengths and key presence)."""
@@ -138,4 +213,5 @@ RULES = [
     ('R6.5', 'versions are persisted verbatim and read back', r6_5),
     ('R6.6', 'JSON equality: bool discrimination, lengths, key presence',
      r6_6),
+    ('R6.7', 'each version getter reads its own table', r6_7),
 ]
